@@ -50,7 +50,7 @@ def main():
     ap.add_argument('--skip-suite', action='store_true')
     a = ap.parse_args()
     tmp = tempfile.mkdtemp(prefix='vseed-', dir='/tmp')
-    tree = os.path.join(tmp, 'repo')
+    tree = os.path.join(tmp, 'wt-' + os.path.basename(tmp))      # unique name: git keys worktrees by basename
     res = {'property': a.prop, 'patch': os.path.abspath(a.patch)}
     try:
         p = sh(['git', '-C', '/repo', 'worktree', 'add', '--detach', tree, 'HEAD'])
@@ -61,6 +61,8 @@ def main():
         d0 = sh(['/venv/bin/python', os.path.abspath(a.demo)], env=demo_env, cwd=tmp, timeout=600)
         res['demo_unpatched_exit'] = d0.returncode
         p = sh(['git', '-C', tree, 'apply', os.path.abspath(a.patch)])
+        if p.returncode:
+            p = sh(['git', '-C', tree, 'apply', '--3way', os.path.abspath(a.patch)])
         res['applies'] = p.returncode == 0
         if not res['applies']:
             res['apply_error'] = p.stdout.decode()[-400:]
